@@ -117,10 +117,10 @@ def _kinetic(rec):
     return 0.5 * tot
 
 
-def sc_trial(V, ensemble="NVT"):
+def sc_trial(V, ensemble="NVT", warmup=False):
     from ase.units import _e, _hplanck, _Nav, kB
 
-    info = f"O1:{ensemble}"
+    info = f"O1:{ensemble}:warmup={warmup}"
     T = 300.0
     beta = 1.0 / (kB * T)
     n = 0 if ensemble == "muVT0" else 2
@@ -156,6 +156,14 @@ def sc_trial(V, ensemble="NVT"):
     spy = Spy(st.criteria, mc.context, V)
     st.criteria = spy
     mc.validate_simulation()
+    if warmup:
+        # one earlier trial of any outcome (accepted, rejected or not completed): nothing of it may
+        # change the rule applied to the next one
+        st.criteria = mcsim.CoinCriteria()  # verdict of the earlier trial: a free symbolic coin
+        mcsim.run_trial(mc)
+        st.criteria = spy
+        n = len(atoms)
+    mark = len(E().draws) if V.mode == "sym" else getattr(mc._rng, "i", 0)
     x = {"pos": np.array(atoms.positions).copy(), "cell": np.array(atoms.cell.array).copy(), "numbers": list(atoms.numbers), "N": getattr(mc.context, "number_of_exchange_particles", None)}
     template = atoms.copy()
     if ensemble == "HMC":
@@ -178,7 +186,7 @@ def sc_trial(V, ensemble="NVT"):
         n_after = spy.rec["n"] if spy.rec is not None else len(atoms)
         inserted, deleted = n_after > n, n_after < n
         if V.mode == "sym":
-            first = [d for d in E().draws if d["kind"] == "random" and not isinstance(d["value"], np.ndarray)]
+            first = [d for d in E().draws[mark:] if d["kind"] == "random" and not isinstance(d["value"], np.ndarray)]
             if first:
                 u0 = first[0]["value"]
                 if inserted:
@@ -186,7 +194,7 @@ def sc_trial(V, ensemble="NVT"):
                 else:
                     V.prove(SB(lift(u0) >= lift(move.bias_towards_insert)), "O3:insertion-proposed-iff-draw-below-bias", info=info + f":N={n}:deleted={deleted}")
         else:
-            dr = [d for d in (V.w.get("draws") or []) if d["kind"] == "random" and not isinstance(d["value"], list)]
+            dr = [d for d in (V.w.get("draws") or [])[mark:] if d["kind"] == "random" and not isinstance(d["value"], list)]
             if dr:
                 u0 = symx.wfloat(dr[0]["value"])
                 V.prove((u0 < move.bias_towards_insert) == inserted or (not inserted and not deleted and u0 >= move.bias_towards_insert), "O3:insertion-proposed-iff-draw-below-bias", info=info)
@@ -261,6 +269,8 @@ replay = generic_replay(SCENARIOS)
 
 def _plan(tier):
     P = [("trial", dict(ensemble=e), ("judged",)) for e in ("NVT", "HMC", "NPT", "muVT", "muVT0")]
+    for e in ("NVT", "muVT", "muVT0"):
+        P.append(("trial", dict(ensemble=e, warmup=True), ("judged",)))
     for op in ("Ball", "Sphere", "Box"):
         P.append(("proposal", dict(which="disp", op=op), ("done",)))
     P.append(("proposal", dict(which="rotation", n=2, cell="tric", with_translation=False), ("done",)))
